@@ -147,6 +147,8 @@ def sub_time(case, sub):
 def oracle(case, io):
     if "raised" in io:
         return f"operator raised {io['raised']}"
+    if T.leak_oracle(case, io):
+        return T.leak_oracle(case, io)
     v = oracle_one(case, io["out"], [s[0:1] for s in io["subs"]], SUB)
     if v is None and "out2" in io:
         v = oracle_one(case, io["out2"], [s[1:2] for s in io["subs"]], case["sub2"])
@@ -245,7 +247,8 @@ def bucket(case, io):
     yield f"{case['op']}:sched={case['sched']}"
     yield f"{case['op']}:second-subscription={'sub2' in case}"
     if case["op"] == "delay_with_mapper":
-        yield f"dwm:inline-delay={any(isinstance(x, dict) for x in case['inners'])}:raise_at={case['raise_at']}"
+        yield f"dwm:schedulerless-timer={any(isinstance(x, dict) and 'timer' in x for x in case['inners'])}"
+        yield f"dwm:inline-delay={any(T.is_inline(x) for x in case['inners'])}:raise_at={case['raise_at']}"
     if case.get("inline"):
         yield "delay_subscription:inline-empty"
     if case["op"] == "delay":
